@@ -6,8 +6,8 @@
   valid non-NUL runes that fits 36 UTF-16 units, BMP or not), every header field value in range,
   every sector size ≥ 92, every trailing sector content.
 -/
-import DiskfsModel.Proofs.GptTable
-import DiskfsModel.Proofs.MbrCodec
+import DiskfsModel.Proofs.GptWhole
+import DiskfsModel.Proofs.MbrTable
 import DiskfsModel.Generated.GptCodec
 namespace Diskfs.Gpt.C02
 
@@ -77,6 +77,37 @@ theorem header_roundtrip (crc : Bytes → Nat) (hcrc : ∀ b, crc b < two32)
               count := cnt, entSize := es, arrCrc := ac } :=
   readHeader_hdrBody crc hcrc my alt fd ld guid hg al cnt es ac pad hmy halt hfd hld hal hcnt hes hac
 
+/-- entry-array round trip (sparse, unordered indices → slots): the 16 KiB array `toPartitionArrayBytes`
+    assembles from entries that read back exactly (`EntryExact`: unused, or well formed with a
+    consistent size — what `initEntry` leaves) decodes to those entries in slot order -/
+theorem array_roundtrip (c : Cfg) (ps : List Part) (lss : Nat) (hex : ∀ p ∈ ps, EntryExact lss p) (b : Bytes)
+    (h : slotsFrom c ps 128 (List.range 128) = .ok b) :
+    b.length = 16384 ∧ decodeArr b lss = normParts ps 128 :=
+  decodeArr_slots c ps lss hex b h
+
+/-- whole table, rewrite over ANY prior device content `d` (blank, another table, random bytes):
+    if `Write` accepts a fresh table of well-formed entries on a disk that holds the primary copy,
+    then gpt.Read of the resulting device returns — from the primary copy — the partitions `Write`
+    was left with (slot order, unused dropped), the same disk GUID and the same geometry.
+    Holds for the code as found and repaired (`c` arbitrary); CRC32 is any function below 2^32. -/
+theorem gpt_read_write (c : Cfg) (crc : Bytes → Nat) (hcrc : ∀ b, crc b < two32) (d : Dev)
+    (t0 : Table) (size : Nat) (ws : List Wr) (t : Table)
+    (hf : Fresh t0) (hlss : t0.lss = 512 ∨ t0.lss = 4096) (hg : t0.guid.length = 16)
+    (hwf : ∀ p ∈ t0.parts, allZero p.typ = true ∨ (EntryWF p ∧ p.size < two64))
+    (hmin : 2 * t0.lss + 16384 ≤ size) (hsz : size < two63)
+    (hw : write c crc t0 size = .ok (ws, t)) :
+    ∃ t', (read c crc (applyWrs d ws) size t0.lss).1 = .ok t' ∧ t'.parts = normParts t.parts 128 ∧
+      t'.guid = t0.guid ∧ t'.backup = false ∧ t'.primaryHeader = 1 ∧ t'.secondaryHeader = t.secondaryHeader ∧
+      t'.firstData = t.firstData ∧ t'.lastData = t.lastData :=
+  read_write_fresh c crc hcrc d t0 size ws t hf hlss hg hwf hmin hsz hw
+
+-- non-vacuity of `gpt_read_write`: a concrete fresh table that `Write` accepts
+set_option maxRecDepth 100000 in
+example : (write Cfg.asFound (fun _ => 0)
+    { parts := [{ index := 5, start := 34, end_ := 40, size := 0, typ := List.replicate 16 7, guid := List.replicate 16 9,
+                  attrs := 1, name := [0x61, 0x1F600] }], lss := 512, guid := List.replicate 16 3, pmbr := true }
+    1048576).isOk = true := by decide
+
 /-- …and that sector is what `hdrEnc` (toGPTBytes) emits for a table -/
 theorem hdrEnc_shape (crc : Bytes → Nat) (t : Table) (primary : Bool) (arr : Bytes) :
     hdrEnc crc t primary arr =
@@ -94,6 +125,29 @@ theorem unused_slot (i lss : Nat) : entryDec i (zeros 128) lss = none := entryDe
 theorem mbr_entry_roundtrip (p : Mbr.Part) (i : Nat) (ht : p.typ < 256) (hs : p.start < two32) (hz : p.size < two32)
     (hc : p.chs.length = 6) : Mbr.entryDec i (Mbr.entryEnc p) = some { p with index := i } :=
   Mbr.entryDec_entryEnc p i ht hs hz hc
+
+/-- MBR whole table over ANY prior device content: what mbr.Table.Write emits for up to four (or more)
+    storable entries reads back through mbr.Read as four slots filled BY POSITION (index = position+1,
+    missing entries empty, entries past the fourth dropped) — the as-found behaviour, which is the
+    recorded findings mbr-slot-by-position / mbr-extra-entries-dropped when Index ≠ position+1 / length > 4 -/
+theorem mbr_read_write (d : Dev) (ps : List Mbr.Part) (devSize : Nat) (hdev : 512 ≤ devSize)
+    (hwf : ∀ p ∈ ps, Mbr.PartWF p) :
+    (Mbr.read (applyWrs d (Mbr.write ps)) devSize).1 =
+      some [Mbr.normSlot ps 0, Mbr.normSlot ps 1, Mbr.normSlot ps 2, Mbr.normSlot ps 3] :=
+  Mbr.read_write d ps devSize hdev hwf
+
+/-- …so a table whose entries carry Index = position+1 reads back exactly -/
+theorem mbr_read_write_exact (d : Dev) (a b : Mbr.Part) (devSize : Nat) (hdev : 512 ≤ devSize)
+    (ha : Mbr.PartWF a) (hb : Mbr.PartWF b) (ia : a.index = 1) (ib : b.index = 2) :
+    (Mbr.read (applyWrs d (Mbr.write [a, b])) devSize).1 = some [a, b, Mbr.emptyPart 3, Mbr.emptyPart 4] := by
+  rw [Mbr.read_write d [a, b] devSize hdev (by intro p hp; simp at hp; rcases hp with h | h <;> subst h <;> assumption)]
+  cases a; cases b
+  simp_all [Mbr.normSlot]
+
+/-- mbr.Table.Write changes bytes 446..511 only (boot code, disk signature = disk identity, data untouched) -/
+theorem mbr_write_frame (d : Dev) (ps : List Mbr.Part) (i : Nat) (hi : i < 446 ∨ 512 ≤ i) :
+    applyWrs d (Mbr.write ps) i = d i :=
+  Mbr.write_frame d ps i hi
 
 /-- as found: a name of at most 36 runes but more than 36 UTF-16 units makes `toBytes` panic
     (19 runes outside the BMP); repaired it is refused with an error -/
